@@ -2,7 +2,10 @@ package twin
 
 // Driver `twin` (C01): one generated history — genesis, keeper-level set-up between blocks, blocks of mixed
 // transactions — executed by k fresh application instances in this process, each under other node-local conditions
-// (minimum-gas-prices, evm.tracer, GOMAXPROCS, mempool activity, wall-clock instant, Go's map seeds).
+// (minimum-gas-prices, evm.tracer, GOMAXPROCS, mempool activity, wall-clock instant, Go's map seeds; replicas 1.. are
+// applications started the way `evmd start` starts them from an app.toml in which every setting is moved — world_test.go,
+// hx/twin_apptoml.go), then once more by a plain fresh operating-system process and by a process that is a node with
+// telemetry enabled and yet another configuration (freshProcess).
 //
 // Oracle (the property text, no model involved): after every block all instances must agree on the app hash, on every
 // transaction result (code, codespace, data, gas wanted, gas used, events with their attributes in order), on the
@@ -267,7 +270,10 @@ func TestDriverTwin(t *testing.T) {
 			"feemarket minimum changed between blocks now and then) executed by k application instances started from identical genesis under different node-local conditions "+
 			"(minimum-gas-prices, evm.tracer none/access_list/struct/json/markdown, GOMAXPROCS, CheckTx traffic in block or reverse order, restarts from the database, wall-clock instant incl. one block straddling a vesting end time, Go map seeds, "+
 			"and each replica's own request traffic: eth_call / estimateGas / cpc queries pinned to OLDER heights, CheckTx / simulation / eth_call between FinalizeBlock and Commit, simulated deployments never included; replica 0 serves none), "+
-			"and once more by a FRESH operating-system process (one replica, no traffic) whose per-block output must equal replica 0's; a replica on which FinalizeBlock panics while others execute the block is a hit; "+
+			"and once more by a FRESH operating-system process (one replica, no traffic) and by a process that is a node with ANOTHER node-local configuration throughout (telemetry enabled process-wide, go-ethereum metrics, "+
+			"app.toml with every setting moved, start flags, debug logger, store tracing, crisis invariant checks, state-sync snapshots, its own traffic) whose per-block outputs must equal replica 0's; "+
+			"blocks also begin with transactions at the boundary of being refused by the state transition (value vs balance of a fresh account: CApply cases), contain gas hogs that exhaust the block gas limit, Cosmos transactions failing at every stage; "+
+			"a replica on which FinalizeBlock panics while others execute the block is a hit; "+
 			"non-trivial = at least one transaction executed (code 0) and (a destroy / transfer() special or >= 3 transactions); distinct by (special, kinds, malformations, result classes)")
 	cases := NewCases(dir, "From Evm Require Import CorrBase Destroy Nondet CorrNondet.", "nd_mismatches")
 	w := newWorld(t, k, side, childCfg)
@@ -630,10 +636,13 @@ func TestDriverTwin(t *testing.T) {
 		}
 		results := make([]childRes, len(variants))
 		var wg sync.WaitGroup
+		sem := make(chan struct{}, 2) // at most two children at a time
 		for vi, v := range variants {
 			wg.Add(1)
 			go func(vi, v int) { // the children are separate processes; this process only waits
 				defer wg.Done()
+				sem <- struct{}{}
+				defer func() { <-sem }()
 				results[vi].recs, results[vi].problem = freshProcess(t, dir, seed, n, straddleUsed, v)
 			}(vi, v)
 		}
